@@ -84,6 +84,7 @@ package database
 //@ func isCrossPlatformTool
 //@   pure
 //@ func isPipelineCommand
+//@   requires cmd != nil
 //@   pure
 //@ func getCurrentPlatform
 //@   pure
@@ -240,7 +241,7 @@ package database
 
 //@ pure func cmdIndexOK(db *Database) bool = forall c *Command :: (c in db.cmdIndex) ==> db.cmdIndex[c] >= 0
 //@ func (*Database).applySemanticBoost
-//@   requires resultsOK(db, results) && elig(results) && sortedDesc(results) && cmdIndexOK(db)
+//@   requires resultsOK(db, results) && elig(results) && sortedDesc(results) && cmdIndexOK(db) && (db.embeddingIndex != nil ==> embedding.wfEmb(db.embeddingIndex))
 //@   modifies results[*]
 //@   ensures[C19.semantic-ok] resultsOK(db, result) && sortedDesc(result) && elig(result) && result == results
 //@ loop 1
@@ -250,7 +251,7 @@ package database
 
 //@ func (*Database).applyPostScoringBoosts
 //@   requires resultsOK(db, results) && sortedDesc(results) && elig(results)
-//@   requires (db.tfidf != nil ==> nlp.wfTFIDF(db.tfidf)) && cmdIndexOK(db)
+//@   requires (db.tfidf != nil ==> nlp.wfTFIDF(db.tfidf)) && cmdIndexOK(db) && (db.embeddingIndex != nil ==> embedding.wfEmb(db.embeddingIndex))
 //@   modifies results[*]
 //@   ensures[C01.post-ok] resultsOK(db, result) && sortedDesc(result) && elig(result)
 //@   ensures[C07.post-nonempty] len(result) <= len(results) && (len(results) > 0 ==> len(result) > 0)
@@ -289,7 +290,11 @@ package database
 //@   invariant len(terms) >= len(old(terms)) && ((base(terms) == base(old(terms)) && offset(terms) == offset(old(terms)) && cap(terms) == cap(old(terms))) || fresh(terms))
 //@ loop 2
 //@   invariant len(terms) >= len(old(terms)) && ((base(terms) == base(old(terms)) && offset(terms) == offset(old(terms)) && cap(terms) == cap(old(terms))) || fresh(terms))
+//@ func (*Database).scoreTerms
+//@   requires db.uIndex != nil
+//@   opt inline yes
 //@ func (*Database).filterAndSortTerms
+//@   requires maxTerms >= 0 && maxTerms < len(list)
 //@   opt inline yes
 //@ loop 3
 //@   invariant 0 <= i
@@ -299,7 +304,7 @@ package database
 
 // dbInv: what every Database built by the loaders satisfies (the index, when it matches the
 // command list in size, was built by BuildUniversalIndex; the re-ranker is well-formed).
-//@ pure func dbInv(db *Database) bool = (db.uIndex != nil && db.uIndex.N == len(db.Commands) ==> idxOK(db)) && (db.tfidf != nil ==> nlp.wfTFIDF(db.tfidf)) && cmdIndexOK(db)
+//@ pure func dbInv(db *Database) bool = (db.uIndex != nil && db.uIndex.N == len(db.Commands) ==> idxOK(db)) && (db.tfidf != nil ==> nlp.wfTFIDF(db.tfidf)) && cmdIndexOK(db) && (db.embeddingIndex != nil ==> embedding.wfEmb(db.embeddingIndex))
 
 //@ func (*Database).SearchUniversal
 //@   requires dbInv(db)
@@ -312,3 +317,96 @@ package database
 //@   ensures[C01.sorted] sortedDesc(result)
 //@   ensures[C04.gates] gatesOK(result, options)
 //@   ensures[C01.keeps-db] db.Commands == old(db.Commands) && dbInv(db)
+
+// ---------------------------------------------------------------------------
+// Legacy searches and helpers (C01, C10): helpers are always handed a command of the list.
+
+//@ func calculateWordScore
+//@   requires cmd != nil
+//@   modifies nothing
+//@ func calculateDomainScore
+//@   requires cmd != nil
+//@   modifies nothing
+//@ func isDomainSpecificMatch
+//@   requires cmd != nil
+//@   modifies nothing
+//@ func getCategoryRelevanceBoost
+//@   requires cmd != nil
+//@   modifies nothing
+//@ func calculateScore
+//@   requires cmd != nil
+//@   modifies nothing
+//@ func (*Database).calculateCommandScore
+//@   requires cmd != nil
+//@   modifies nothing
+//@   ensures[C01.legacy-score] result == nil || (fresh(result) && result.Command == cmd && result.Score > 0.0)
+
+//@ func (*Database).limitResults
+//@   requires limit >= 0
+//@   modifies nothing
+//@   ensures[C01.limit-results] len(result) <= limit && len(result) <= len(results) && base(result) == base(results) && offset(result) == offset(results) && cap(result) <= cap(results) && (len(results) <= limit ==> result == results)
+
+//@ func (*Database).sortAndLimitResults
+//@   requires limit >= 0 && resultsOK(db, results) && elig(results)
+//@   modifies results[*]
+//@   ensures[C01.sort-limit] len(result) <= limit && resultsOK(db, result) && sortedDesc(result) && elig(result) && base(result) == base(results) && offset(result) == offset(results) && cap(result) <= cap(results)
+
+// the legacy scans visit the commands in order: results are distinct because their indices increase
+//@ pure func ascendingCmds(db *Database, r []SearchResult) bool = forall a, b int :: 0 <= a && a < b && b < len(r) ==> cmdIdx(db, r[a].Command) < cmdIdx(db, r[b].Command)
+//@ pure func effLimit5(l int) int = l > 0 ? l : 5
+
+//@ func (*Database).SearchWithPipelineOptions
+//@   defines forall c *Command :: eligible(c) <==> pipeOK(c, options)
+//@   modifies nothing
+//@   ensures[C01.pipeline-len] len(result) <= effLimit5(options.Limit)
+//@   ensures[C01.pipeline-ok] resultsOK(db, result) && sortedDesc(result)
+//@   ensures[C04.pipeline-only] forall k int :: 0 <= k && k < len(result) ==> pipeOK(result[k].Command, options)
+//@ loop 1
+//@   invariant allInDB(db, results) && ascendingCmds(db, results) && elig(results) && (forall k int :: 0 <= k && k < len(results) ==> cmdIdx(db, results[k].Command) < $i && results[k].Score > 0.0)
+
+//@ func (*Database).SearchWithOptions
+//@   defines forall c *Command :: eligible(c) <==> true
+//@   modifies nothing
+//@   ensures[C01.legacy-len] len(result) <= effLimit5(options.Limit)
+//@   ensures[C01.legacy-ok] resultsOK(db, result) && sortedDesc(result) && fresh(result)
+//@ loop 1
+//@   invariant allInDB(db, results) && ascendingCmds(db, results) && elig(results) && (forall k int :: 0 <= k && k < len(results) ==> cmdIdx(db, results[k].Command) < $i && results[k].Score > 0.0)
+
+//@ func (*Database).Search
+//@   requires dbInv(db)
+//@   modifies db.*
+//@   ensures[C01.search-len] len(result) <= effLimit(limit) && resultsOK(db, result) && sortedDesc(result)
+
+//@ func (*Database).combineAndDeduplicateResults
+//@   requires limit >= 0 && (forall k int :: 0 <= k && k < len(exactResults) ==> exactResults[k].Command != nil) && (forall k int :: 0 <= k && k < len(fuzzyResults) ==> fuzzyResults[k].Command != nil)
+//@   modifies nothing
+//@   ensures[C01.combine-len] len(result) <= limit && fresh(result) && (forall k int :: 0 <= k && k < len(result) ==> result[k].Command != nil)
+//@ loop 1
+//@   invariant seen != nil && fresh(seen) && (forall k int :: 0 <= k && k < len(combined) ==> combined[k].Command != nil)
+//@ loop 2
+//@   invariant seen != nil && fresh(seen) && (forall k int :: 0 <= k && k < len(combined) ==> combined[k].Command != nil)
+//@ func (*Database).SearchWithFuzzy
+//@   modifies nothing
+//@   ensures[C01.fuzzy-hybrid-len] len(result) <= effLimit5(options.Limit) && fresh(result) && (forall k int :: 0 <= k && k < len(result) ==> result[k].Command != nil)
+//@ func (*Database).SearchWithNLP
+//@   requires dbInv(db) && (db.tfidf != nil && db.cmdIndex != nil ==> len(db.tfidf.commands) == len(db.Commands))
+//@   modifies nothing
+//@   ensures[C01.nlp-legacy-len] len(result) <= effLimit5(options.Limit)
+//@ loop 1
+//@   invariant forall k int :: 0 <= k && k < len(results) ==> results[k].Command != nil
+//@ loop 2
+//@   invariant len(nlpCommands) == len(db.Commands) && fresh(nlpCommands)
+//@ loop 3
+//@   invariant forall k int :: 0 <= k && k < len(results) ==> results[k].Command != nil
+//@ loop 4
+//@   invariant forall k int :: 0 <= k && k < len(fallbackResults) ==> fallbackResults[k].Command != nil
+//@ func (*Database).GetSuggestions
+//@   modifies nothing
+//@   ensures[C10.suggestions-len] len(result) <= (maxSuggestions > 0 ? maxSuggestions : 5)
+//@ loop 5
+//@   invariant len(suggestions) <= $i && $i <= maxSuggestions && maxSuggestions >= 1
+
+//@ func (*Database).EmbedQuery
+//@   requires db.embeddingIndex != nil ==> embedding.wfEmb(db.embeddingIndex)
+//@   modifies nothing
+//@   ensures[C19.db-embed-fresh] fresh(result)
